@@ -257,7 +257,22 @@ impl Parameter {
                 return false;
             }
         }
-        true
+        // The braces are only trimmed if the first opening brace is closed by the last token;
+        // i.e., if the whole argument is a single group (TeX.2021.393).
+        let mut depth = 0_usize;
+        for (i, token) in list.iter().enumerate() {
+            match token.value() {
+                token::Value::BeginGroup(_) => depth += 1,
+                token::Value::EndGroup(_) => {
+                    depth -= 1;
+                    if depth == 0 {
+                        return i + 1 == list.len();
+                    }
+                }
+                _ => (),
+            }
+        }
+        false
     }
 
     fn parse_undelimited_argument<S: TexlangState>(
